@@ -142,14 +142,16 @@ mutual
 def parseBp (fold : FoldMode) : Nat → Nat → List Tok → Res Expr
   | 0, _, _ => .fuel
   | f + 1, bp, toks =>
-    match prefixOp? fold toks with
+    -- an operand may start on a continuation line: newlines are skipped before the prefix-operator
+    -- test (fix 7fe8312); never in front of a binary or postfix operator (see `loop`)
+    match prefixOp? fold (skipNl toks) with
     | some (op, rest) =>
       match parseBp fold f op.prec rest with
       | .ok rhs r => loop fold f bp (Expr.unop op rhs) r
       | .err => .err
       | .fuel => .fuel
     | none =>
-      match parseTerm fold f toks with
+      match parseTerm fold f (skipNl toks) with
       | .ok lhs r => loop fold f bp lhs r
       | .err => .err
       | .fuel => .fuel
